@@ -109,7 +109,7 @@ package types
 //@   trusts def: tibc == old(tibc)[recentSigner(clientOf(store), height.RevisionNumber, height.RevisionHeight) := none]
 //@
 //@ // the validator list of a client state as a set of addresses; nvals is the number of distinct addresses in it
-//@ spec isVal(V: obj, a: str): bool = exists i: i64 :: 0 <=s i && i <s seqlen(V) && addr20(seqstr(V, i)) == a
+//@ spec isVal(V: obj, a: str): bool = exists i: i64 :: 0 <=s i && i <s seqlen(V) && addr20(str(seqbytes(V, i))) == a
 //@ spec valset(V: obj): set_str
 //@ spec nvals(V: obj): i64
 //@ axiom valset.def: forall V: obj, a: str :: valset(V)[a] <==> isVal(V, a)
@@ -156,3 +156,114 @@ package types
 //@   ensures recents.kept:  err == nil && number != 0 ==> recentsOk(tibc, c, number)
 //@   loop #0 invariant seen: forall h: u64 :: visited(h) && mapval(snap.Recents, h) == str(signer) ==> !(h >u number - limit)
 //@   loop #0 invariant pure: tibc == old(tibc)
+//@
+//@ // A-CRYPTO: the block hash (keccak of the RLP of the go-ethereum form of the header)
+//@ spec bscHash(h: obj): str
+//@ func (*Header).Hash() (result)
+//@   props C17
+//@   trusts def: str(result) == bscHash(pack(self))
+//@
+//@ // verifyCascadingFields: the header is the direct child of the client's latest header (number and parent hash), its
+//@ // gas figures are within bounds of the parent's, and the seal check accepted it; nothing else makes it fail
+//@ func verifyCascadingFields(cdc, store, clientState, header) (err)
+//@   props C17
+//@   modifies tibc
+//@   let parent = clientState.Header
+//@   let number = header.Height.RevisionHeight
+//@   let child  = parent.Height.RevisionHeight == number - 1 && bscHash(pack(parent)) == hash32(str(header.ParentHash))
+//@   let gdiff  = ite(parent.GasLimit >=u header.GasLimit, parent.GasLimit - header.GasLimit, header.GasLimit - parent.GasLimit)
+//@   let gas    = header.GasLimit <=u 0x7fffffffffffffff && header.GasUsed <=u header.GasLimit && gdiff <u parent.GasLimit / 256 && header.GasLimit >=u 5000
+//@   requires recents:    recentsOk(tibc, clientOf(store), parent.Height.RevisionHeight)
+//@   requires parent.gas: parent.GasLimit <=u 0x7fffffffffffffff
+//@   ensures sound.child: err == nil ==> child
+//@   ensures sound.gas:   err == nil ==> gas
+//@   ensures sound.seal:  err == nil ==> ncalls(verifySeal) == 1 && (forall v in calls(verifySeal) :: v.err == nil && v.header == header && v.clientState == clientState && v.store == store)
+//@   ensures complete:    child && gas ==> ncalls(verifySeal) == 1 && (forall v in calls(verifySeal) :: v.err == err)
+//@   ensures reject.pure: !(child && gas) ==> err != nil && tibc == old(tibc)
+//@
+//@ // stand-alone checks of a header: room for vanity and seal in Extra, zero mix digest, the empty-uncles hash, and a
+//@ // non-zero difficulty above the genesis block
+//@ func (Header).ValidateBasic() (err)
+//@   props C17
+//@   let number = self.Height.RevisionHeight
+//@   ensures def: err == nil <==> len(self.Extra) >=s 97 && hash32(str(self.MixDigest)) == zeroarr(32) && hash32(str(self.UncleHash)) == str(uncleHash) && (number >u 0 ==> self.Difficulty != 0)
+//@
+//@ // verifyHeader: stand-alone checks, validators listed only (and in whole addresses) on epoch blocks, then the
+//@ // cascading checks; nothing else makes it fail
+//@ func verifyHeader(cdc, store, clientState, header) (err)
+//@   props C17
+//@   modifies tibc
+//@   let number  = header.Height.RevisionHeight
+//@   let isEpoch = number % clientState.Epoch == 0
+//@   let nbytes  = len(header.Extra) - 97
+//@   let basic   = len(header.Extra) >=s 97 && hash32(str(header.MixDigest)) == zeroarr(32) && hash32(str(header.UncleHash)) == str(uncleHash) && (number >u 0 ==> header.Difficulty != 0)
+//@   let extra   = ite(isEpoch, nbytes % 20 == 0, nbytes == 0)
+//@   requires epoch:      clientState.Epoch != 0
+//@   requires recents:    recentsOk(tibc, clientOf(store), clientState.Header.Height.RevisionHeight)
+//@   requires parent.gas: clientState.Header.GasLimit <=u 0x7fffffffffffffff
+//@   ensures sound.basic:   err == nil ==> basic
+//@   ensures sound.extra:   err == nil ==> extra
+//@   ensures sound.cascade: err == nil ==> ncalls(verifyCascadingFields) == 1 && (forall v in calls(verifyCascadingFields) :: v.err == nil && v.header == header && v.clientState == clientState && v.store == store)
+//@   ensures complete:      basic && extra ==> ncalls(verifyCascadingFields) == 1 && (forall v in calls(verifyCascadingFields) :: v.err == err)
+//@   ensures reject.pure:   !(basic && extra) ==> err != nil && tibc == old(tibc)
+//@
+//@ // the validators listed in the Extra field of an epoch header (the 20-byte groups between vanity and seal)
+//@ spec parsedVals(extra: str): obj
+//@ func ParseValidators(extra) (result, err)
+//@   props C17
+//@   requires room: len(extra) >=s 97
+//@   trusts ok:  err == nil <==> (len(extra) - 97) % 20 == 0
+//@   trusts def: err == nil ==> result == parsedVals(str(extra))
+//@
+//@ // sets of addresses of list prefixes (definitional; the last two link them to valset / nvals and to len() of a Go map)
+//@ spec vprefix(V: obj, n: i64): set_str
+//@ axiom vprefix.zero: forall V: obj :: vprefix(V, 0) == emptyset(str)
+//@ axiom vprefix.succ: forall V: obj, n: i64 :: 0 <=s n ==> vprefix(V, n + 1) == vprefix(V, n)[addr20(str(seqbytes(V, n))) := true]
+//@ axiom vprefix.all:  forall V: obj, n: i64 :: n == seqlen(V) ==> vprefix(V, n) == valset(V)
+//@ axiom nvals.card:   forall V: obj :: card(valset(V)) == nvals(V)
+//@
+//@ // update: the header becomes the client's latest header and its time, height and root the consensus state of that
+//@ // height; an epoch header's validator list is stored as pending and replaces the validator set exactly at the
+//@ // block len(validators)/2 after the epoch; recent-signer records inside the window of the (new) validator set stay,
+//@ // the one that leaves the window is removed
+//@ func update(cdc, store, clientState, header) (newCS, cs, err)
+//@   props C17
+//@   modifies tibc
+//@   let c       = clientOf(store)
+//@   let number  = header.Height.RevisionHeight
+//@   let hrev    = header.Height.RevisionNumber
+//@   let V0      = clientState.Validators
+//@   let isEpoch = number % clientState.Epoch == 0
+//@   let switch  = number % clientState.Epoch == len(V0) / 2
+//@   let pk      = clientRaw(c, "pendingValidators")
+//@   let pend    = ite(isEpoch, parsedVals(str(header.Extra)), pbdec_obj(ValidatorSet, 0, optstr(old(tibc)[pk])))
+//@   let V1      = ite(switch, pend, V0)
+//@   let oldLim  = len(V0) / 2 + 1
+//@   let setLim  = nvals(V1) / 2 + 1
+//@   let lenLim  = len(V1) / 2 + 1
+//@   requires epoch:   clientState.Epoch != 0
+//@   requires room:    len(header.Extra) >=s 97
+//@   requires recents: recentsOk(tibc, c, number)
+//@   requires sane:    number <u 0x8000000000000000
+//@   ensures fails:    err != nil <==> isEpoch && (len(header.Extra) - 97) % 20 != 0
+//@   ensures latest:   err == nil ==> newCS == clientState && pack(newCS.Header) == pack(header)
+//@   ensures cons:     err == nil ==> cs.Timestamp == header.Time && cs.Number == header.Height && str(cs.Root) == str(header.Root)
+//@   ensures vals:     err == nil ==> newCS.Validators == V1
+//@   ensures pending:  err == nil ==> (isEpoch ==> pbdec_obj(ValidatorSet, 0, optstr(tibc[pk])) == parsedVals(str(header.Extra))) && (!isEpoch ==> tibc[pk] == old(tibc)[pk])
+//@   ensures window:   err == nil ==> (forall rn: u64, h: u64 :: h >u number - setLim ==> tibc[recentSigner(c, rn, h)] == old(tibc)[recentSigner(c, rn, h)])
+//@   ensures pruned:   err == nil && number >=u lenLim ==> !present(tibc[recentSigner(c, hrev, number - lenLim)])
+//@   ensures recents.kept: recentsOk(tibc, c, number)
+//@   ensures frame:    forall k: key :: !is_recentSigner(k) && k != pk ==> tibc[k] == old(tibc)[k]
+//@   loop #0 invariant range: -1 <=s rangeindex && rangeindex <s seqlen(validators)
+//@   loop #0 invariant set:   domset(newVals) == vprefix(validators, rangeindex + 1)
+//@   loop #0 invariant card:  rangeindex + 1 == seqlen(validators) ==> len(newVals) == nvals(validators)
+//@   loop #0 decreases seqlen(validators) - 1 - rangeindex
+//@   loop #0 modifies nothing
+//@   loop #1 modifies tibc
+//@   loop #1 invariant idx:     0 <=s i && i <=s oldLimit - newLimit
+//@   loop #1 invariant window:  forall rn: u64, h: u64 :: h >u number - newLimit ==> tibc[recentSigner(c, rn, h)] == old(tibc)[recentSigner(c, rn, h)]
+//@   loop #1 invariant lim:     newLimit == nvals(validators) / 2 + 1
+//@   loop #1 invariant kept:    recentsOk(tibc, c, number)
+//@   loop #1 invariant pending: (isEpoch ==> pbdec_obj(ValidatorSet, 0, optstr(tibc[pk])) == parsedVals(str(header.Extra))) && (!isEpoch ==> tibc[pk] == old(tibc)[pk])
+//@   loop #1 invariant frame:   forall k: key :: !is_recentSigner(k) && k != pk ==> tibc[k] == old(tibc)[k]
+//@   loop #1 decreases oldLimit - newLimit - i
